@@ -7,6 +7,7 @@ import tempfile
 
 from .. import core
 from ..apivec import api_vector, diff
+from ..refmodel import tables as T
 from ..refmodel.parser import ref_parse, ACCEPT, REJECT, DONTCARE
 
 PROP = "C14"
@@ -262,6 +263,18 @@ def shard(s):
             for pos in range(len(text) + 1):
                 for c in (">", "*", "\n>x\n", "b", "1", " "):
                     consume(text[:pos] + c + text[pos:], 0, {"kind": "text", "depth": 0, "inserted_at": pos})
+    elif kind == "alphabets":
+        # the residues a valid file may be made of: every homopolymer, every alternating pair of residues, and words over
+        # sub-alphabets that look like something else (nucleotides, hex digits, roman numerals), 30 residues each, with and
+        # without header, through the parser and the SequenceParameters(sequenceFile=) constructor
+        fam = [a * 30 for a in T.AA] + [(a + b) * 15 for i, a in enumerate(T.AA) for b in T.AA[i + 1:]]
+        fam += [("ACGT" * 8)[:30], ("ACGTN" * 6)[:30], ("GATTACA" * 5)[:30], ("ACDEF" * 6)[:30], ("MDCLIV" * 5)[:30], ("NNNNNNNNNA" * 3)[:30],
+                "ACGT" * 5, "ACGTACGTACGTACGTACG", "A" * 19, "A" * 20, "A" * 21, ("TGCA" * 64)[:250]]
+        for i, seq in enumerate(fam):
+            text = (">seq %d\n" % i if i % 2 else "") + "\n".join(seq[j:j + 60] for j in range(0, len(seq), 60)) + "\n"
+            verdict = consume(text, 1, {"kind": "text", "depth": 1})
+            if verdict == ACCEPT:
+                acc.nontrivial += 1
     elif kind == "bytes":
         d = tempfile.mkdtemp(prefix="vmc_c14_")
         try:
@@ -348,6 +361,7 @@ def run(tier, seed, t0):
             SEQ23 + "\n", ">x\n" + SEQ61[:30] + "\n" + SEQ61[30:] + "*\n"]
     shards.append(("real", real))
     shards.append(("bytes",))
+    shards.append(("alphabets",))
     for n_ in ((11000,) if tier == "quick" else (9000, 12000, 20000, 35000)):
         shards.insert(0, ("longfiles", (n_,)))
     acc = core.pmap(shard, shards)
@@ -356,7 +370,7 @@ def run(tier, seed, t0):
         rule="every file text of length 0..%d over %d symbols %r served through an in-memory open(), every structured layout "
              "(header x every line length x 10-residue spacing x numbering x blank lines x trailing newline x stop) of %s, every "
              "single-character substitution by %d characters and 6 insertions at every position of sampled-by-index layouts, and "
-             "%d real temporary files; 13 byte strings that are not text in the read encoding (lone continuation / lead bytes, Latin-1 letters, surrogate, overlong) inserted and substituted at every position of the sequence lines of 4 host files (in-memory open honouring the encoding/errors arguments the library passes, and real binary files) must be rejected; reference parser (vmc/refmodel/parser.py) gives must-accept(seq) / must-reject / dont-care; "
+             "%d real temporary files; 30-residue files over every single residue, every pair of residues and nucleotide-/numeral-like sub-alphabets (parser and constructor route); 13 byte strings that are not text in the read encoding (lone continuation / lead bytes, Latin-1 letters, surrogate, overlong) inserted and substituted at every position of the sequence lines of 4 host files (in-memory open honouring the encoding/errors arguments the library passes, and real binary files) must be rejected; reference parser (vmc/refmodel/parser.py) gives must-accept(seq) / must-reject / dont-care; "
              "accepted files up to length %d are also loaded with SequenceParameters(sequenceFile=...) and compared (sequence, and "
              "a 32-entry API vector up to length %d) with SequenceParameters(seq); non-trivial = accepted files that needed "
              "parsing (line breaks, spaces, digits, stop, header)" % (
